@@ -250,6 +250,9 @@ class World:
         self.durable_seq = 0
         self.ledger: list[dict[str, Any]] = []
         self.handler_calls: dict[str, int] = {}      # message_id -> handler invocations
+        # reads worth knowing about afterwards (the audit only sees writes): (context string, durable audit position at
+        # the moment of the read, what was asked, parameter)
+        self.read_marks: list[tuple[str, int, str, str]] = []
         self.sweep_marks: list[list[int]] = []      # [durable audit seq when a recovery sweep began, ... when it ended]
         self.handler_log: list[tuple[int, str, str, int, int]] = []  # (inc, type, message_id, commit_count, durable audit seq)
         self.bus_log: list[dict[str, Any]] = []
@@ -343,6 +346,11 @@ class World:
                 sql = f"PRAGMA journal_mode = {self.knobs.journal_mode}"
             elif "mmap_size" in low:
                 sql = "PRAGMA mmap_size = 0"
+        if "parent_stage_id = :parent_id" in sql and s[:6].upper() == "SELECT":
+            try:
+                self.read_marks.append((self.ctx_string(), self.durable_seq, "synthetic_children", str((params or {}).get("parent_id", ""))))
+            except Exception:
+                pass
         err = self.io_fault_stmts.pop(self.stmt_count, None)
         if self._fault_next_on is conn:
             self._fault_next_on = None
